@@ -116,15 +116,15 @@ func vecTemplates(maxN, K int) []*tmpl {
 	}
 
 	// MulVec: receiver (n) = A (n×k) * b (k).
-	const fvDenseT = nfvAll // A = fresh (k×n).T()
+	const fvDenseT2 = nfvAll // A = fresh (k×n).T()
 	mkA := func(fv, n, k int) (mat.Matrix, bool) {
-		if fv == fvDenseT {
+		if fv == fvDenseT2 {
 			return fDense(k, n, 2).T(), true
 		}
 		return fMat(fv, n, k, 2)
 	}
 	rA := func(fv, n, k int) mat.Matrix {
-		if fv == fvDenseT {
+		if fv == fvDenseT2 {
 			m, _ := rMat(fvDense, k, n, 2)
 			return m.T()
 		}
